@@ -21,6 +21,7 @@ import (
 	"fmt"
 	"reflect"
 	"regexp"
+	"sort"
 	"strconv"
 	"strings"
 	"time"
@@ -192,7 +193,11 @@ func validateStruct(val reflect.Value, opts *options) error {
 }
 
 func validateMap(val reflect.Value, opts *options) error {
-	for _, key := range val.MapKeys() {
+	keys := val.MapKeys()
+	sort.Slice(keys, func(i, j int) bool {
+		return mapKeyString(keys[i]) < mapKeyString(keys[j])
+	})
+	for _, key := range keys {
 		if err := tryRecursiveValidate(val.MapIndex(key), opts, nil); err != nil {
 			return err
 		}
